@@ -186,8 +186,9 @@ func callsCloneOf(c *core.Ctx, fi *core.FuncInfo, elem types.Type) bool {
 	return found
 }
 
-func runC07(c *core.Ctx) {
-	c.Clause("D1", func() {
+// runCloneCompleteness: published metadata is immutable (shared by C07 and C19).
+func runCloneCompleteness(c *core.Ctx) {
+	{
 		root := c.P.LookupType(metap, "Data")
 		c.Need(root != nil, "type meta.Data")
 		// collect the struct types of the graph
@@ -359,7 +360,11 @@ func runC07(c *core.Ctx) {
 		}
 		walkP(pf)
 		c.Check("snapshot-is-a-value", pf.Name+"/marshals-own-Data", pf.PosStr(), marshalOnOwn, "Persist must marshal the *Data captured by Snapshot()")
-	})
+	}
+}
+
+func runC07(c *core.Ctx) {
+	c.Clause("D1", func() { runCloneCompleteness(c) })
 
 	c.Clause("D2", func() {
 		// (a) the extension asserted by each apply function = the validator's entry for the dispatching type
